@@ -266,7 +266,9 @@ func (v *V) Float32() float32 {
 	return float32((r.Float() - 0.5) * math.Pow(10, float64(r.Intn(60)-30)))
 }
 
-var zones = []*time.Location{time.UTC, time.FixedZone("", 3600), time.FixedZone("XST", -5*3600-1800), time.FixedZone("P", 14*3600)}
+var zones = []*time.Location{time.UTC, time.FixedZone("", 3600), time.FixedZone("XST", -5*3600-1800), time.FixedZone("P", 14*3600),
+	// zone names are arbitrary strings chosen by the caller; layouts with MST print them
+	time.FixedZone("Q\"Z", 2*3600), time.FixedZone("B\\S", -2*3600), time.FixedZone("N\nL", 0), time.FixedZone("É\xff", 1800)}
 
 func (v *V) Time() time.Time {
 	r := v.R
